@@ -132,6 +132,11 @@ def retval(inp):
 
 def monitor(scn, sobj, rep, sf, ck):
     ops = sobj.meta["ops"]
+    for key, txt in sf:
+        # a table operation that makes the sanitizer stop the process has disturbed more than the table
+        rep.violation("C16:" + key, "scenario %s: sanitizer report during a table operation:\n%s" % (scn.sid, txt[:1200]), replay=sobj.text())
+    if ck and not sf:
+        rep.violation("C16:crash:" + ck, "scenario %s: the process died during a table operation: %s" % (scn.sid, scn.stderr[-300:]), replay=sobj.text())
     now_ms = sobj.meta["now"]
     model = {}      # key -> dict(seq, complete, last, slot)
     prev_ents = {}
